@@ -303,6 +303,21 @@ pub fn run_thread<'w>(tid: usize, cfg: &MenuThread, targets: &'w [Target<'w>], _
 		perform(&mut th, &act, targets, cfg);
 		// the key probe after every step (C06)
 		let free = key_free();
+		if free && th.ks == KS::InGuard {
+			// a second key while a guard is alive: show what it allows (C03: acquiring while holding)
+			if let (Some(k2), Some((_, gt, _))) = (ThreadKey::get(), th.guard.as_ref()) {
+				let t = &targets[*gt];
+				let w = what(t, "try_lock (with a second key obtained while the guard is alive)");
+				let saved = rt::end_call();
+				rt::begin_call(CallKind::TryAcquire, t.retrying, w);
+				if let Ok(g) = t.coll.try_lock(k2) {
+					drop(g);
+				}
+				rt::end_call();
+				rt::begin_call(saved.kind, saved.retrying, saved.what);
+				rt::set_call_kind(CallKind::Body);
+			}
+		}
 		if free != (th.ks == KS::Free) {
 			rt::violation(
 				"C06",
